@@ -194,7 +194,6 @@ func genC07Hist(x *Ctx) {
 			for i := range progs {
 				progs[i] = randOps(c.R, n/g+c.R.Intn(3), 1, rocDen)
 			}
-			c.I.Nat(s0).Nat(g)
 			c.Tag(tag)
 			hist := stressSeq(rtp.NewFixedSequencer(uint16(s0)), progs)
 			cnt := 0
@@ -207,6 +206,7 @@ func genC07Hist(x *Ctx) {
 					c.O.Nat(gi).Tok(string(rune(r.op))).U64(r.before).U64(r.after).U64(r.res)
 				}
 			}
+			c.I.Nat(s0).Nat(g).U64(fnv(c.O.String()))
 		})
 	}
 	nearWrap := func(c *Case) int { return c.R.Pick(0, 1, 65535, 65535-c.R.Intn(2000), c.R.Intn(65536)) }
@@ -311,7 +311,7 @@ func b2u(b bool) uint64 {
 }
 
 func writeSynth(c *Case, start int, calls []synthCall) {
-	c.I.Nat(start).Nat(0)
+	defer func() { c.I.Nat(start).Nat(0).U64(fnv(c.O.String())) }()
 	perm := make([]int, len(calls))
 	for i := range perm {
 		perm[i] = i
@@ -402,6 +402,74 @@ func genC07SynthBad(x *Ctx) {
 				k := c.R.Intn(n)
 				calls[k].res += 70000
 				c.Tag("fallback")
+			}
+			writeSynth(c, start, calls)
+		})
+	}
+}
+
+// c07.synthsmall: tiny random histories (intervals drawn at random, results those of a random
+// sequential order, sometimes corrupted); linearizable or not — the Lean side compares the greedy
+// checker with a brute-force search over all permutations.
+func genC07SynthSmall(x *Ctx) {
+	for i, n := 0, x.N(6000, 400000); i < n; i++ {
+		x.Case(func(c *Case) {
+			r := c.R
+			n := r.Range(1, 7)
+			start := r.Pick(65535, 65534, 0, 65535-r.Intn(4))
+			calls := make([]synthCall, n)
+			// tickets: a random matching of 1..2n
+			tk := make([]int, 2*n)
+			for k := range tk {
+				tk[k] = k + 1
+			}
+			for k := len(tk) - 1; k > 0; k-- {
+				j := r.Intn(k + 1)
+				tk[k], tk[j] = tk[j], tk[k]
+			}
+			if r.Bool() { // mostly sequential: sort so that call k gets tickets 2k+1, 2k+2, then perturb a little
+				sort.Ints(tk)
+				for t := 0; t < r.Intn(4); t++ {
+					a := r.Intn(2*n - 1)
+					tk[a], tk[a+1] = tk[a+1], tk[a]
+				}
+			}
+			for k := range calls {
+				a, b := tk[2*k], tk[2*k+1]
+				if a > b {
+					a, b = b, a
+				}
+				calls[k].before, calls[k].after = uint64(a), uint64(b)
+			}
+			// results: those of a sequential run in a random order of the calls
+			order := make([]int, n)
+			for k := range order {
+				order[k] = k
+			}
+			if r.Bool() {
+				sort.Slice(order, func(a, b int) bool { return calls[order[a]].before < calls[order[b]].before })
+			} else {
+				for k := n - 1; k > 0; k-- {
+					j := r.Intn(k + 1)
+					order[k], order[j] = order[j], order[k]
+				}
+			}
+			s := rtp.NewFixedSequencer(uint16(start))
+			for _, k := range order {
+				if r.Chance(1, 3) {
+					calls[k].op, calls[k].res = 'r', s.RollOverCount()
+				} else {
+					calls[k].op, calls[k].res = 'n', uint64(s.NextSequenceNumber())
+				}
+			}
+			if r.Chance(1, 4) {
+				k := r.Intn(n)
+				if calls[k].op == 'n' {
+					calls[k].res = (calls[k].res + uint64(r.Pick(1, 2, 65535))) % 65536
+				} else {
+					calls[k].res ^= 1
+				}
+				c.Tag("corrupted")
 			}
 			writeSynth(c, start, calls)
 		})
@@ -707,4 +775,5 @@ func init() {
 	register("c07.facts", "C07", genC07Facts)
 	register("c07.synth", "C07", genC07Synth)
 	register("c07.synthbad", "C07", genC07SynthBad)
+	register("c07.synthsmall", "C07", genC07SynthSmall)
 }
